@@ -16,7 +16,7 @@ func init() {
 	}
 	p := &PropSpec{ID: "C12", Level: "model_checking",
 		Outside: []string{
-			"texts longer than N free bytes outside the templates; template holes longer than HOLE bytes or outside the 10-byte significant alphabet",
+			"texts longer than N free bytes outside the templates; template holes longer than HOLE bytes (1 byte; 2-byte holes took 45 minutes per template and are not registered) or outside the significant alphabet",
 			"the Wuffs formatter on whole programs beyond the token sequences listed (see the render harness bounds)",
 		},
 		Assume: []string{
@@ -30,13 +30,17 @@ func init() {
 		if opts != 0 && opts != 3 {
 			tier = "thorough"
 		}
+		nT := 4 // 5-byte texts take 10 minutes per option set: thorough only for the two sets that are also in quick
+		if tier == "" {
+			nT = 5
+		}
 		p.Harnesses = append(p.Harnesses, HSpec{Prop: "C12", Pkg: L, Dir: "c12", Func: "VH_C12_Indent", Tier: tier, Cfg: cfg, Hang: true,
-			Label: fmt.Sprintf("[opts=%d]", opts), Params: map[string]int{"N": 4, "OPTS": opts}, ParamsT: map[string]int{"N": 5}, Reach: []string{"indent/done"}})
+			Label: fmt.Sprintf("[opts=%d]", opts), Params: map[string]int{"N": 4, "OPTS": opts}, ParamsT: map[string]int{"N": nT}, Reach: []string{"indent/done"}})
 	}
 	for first := 0; first < 2; first++ {
 		for second := 0; second < 8; second++ {
 			p.Harnesses = append(p.Harnesses, HSpec{Prop: "C12", Pkg: L, Dir: "c12", Func: "VH_C12_IndentTemplate", Cfg: cfg, Hang: true,
-				Label: fmt.Sprintf("[first=%d second=%d]", first, second), Params: map[string]int{"FIRST": first, "SECOND": second, "HOLE": 1, "OPTS": second % 4}, ParamsT: map[string]int{"HOLE": 2}, Reach: []string{"tpl/done"}})
+				Label: fmt.Sprintf("[first=%d second=%d]", first, second), Params: map[string]int{"FIRST": first, "SECOND": second, "HOLE": 1, "OPTS": second % 4}, Reach: []string{"tpl/done"}})
 		}
 	}
 	for q := 0; q < 2; q++ {
